@@ -496,6 +496,94 @@ def lexical_family(rep, tier, seed, fnd, stats):
                 lexical_token_words_decided=n_decided)
 
 
+# ------------------------------------------------------------------ the table side (Model/NLR.v)
+NLR_HEADER = "From RV Require Import Model.NLRCheck.\nOpen Scope nat_scope.\n"
+
+
+def table_phase(rep, fnd, all_dumps, items, gtext_of):
+    """(V) sound_rn_b / complete_rn_b on the REAL LALR_RN table of every compiled grammar (theorems nlr_sound,
+    nlr_complete, nlr_exact apply to tables passing them); (C) the real forest against the accepting runs of the
+    nondeterministic machine over the real table, enumerated inside Coq (nruns; nruns_exact)."""
+    jobs = []
+    nf = max(1, min(NCPU, len(all_dumps) // 6 + 1))
+    for fi in range(nf):
+        body = [NLR_HEADER]
+        tags = []
+        for gi, d in all_dumps[fi::nf]:
+            body.append("Eval vm_compute in c03_table_b (%s) (%s)." % (gl_grammar(d), gl_table(d)))
+            tags.append(gi)
+        jobs.append(("c03tab_%d" % fi, "\n".join(body) + "\n", tags))
+    n_tab = n_tab_ok = 0
+    for (fname, body, tags), (ok, out) in zip(jobs, coq_eval_many([(j[0], j[1]) for j in jobs], timeout=1500)):
+        ans = parse_bools(out) if ok else []
+        if len(ans) != len(tags):
+            if tags:
+                rep.violation("coq-eval", "evaluation of the table validators failed", dict(file=fname, err=out[-1500:]),
+                              found_input=False)
+            continue
+        for gi, a in zip(tags, ans):
+            n_tab += 1
+            if a == [True, True]:
+                n_tab_ok += 1
+                continue
+            which = "sound_rn_b" if not a[0] else "complete_rn_b"
+            fnd.add("rn-table-" + which, "the real LALR_RN table does not pass %s (theorem %s no longer applies to it)" %
+                    (which, "nlr_sound" if not a[0] else "nlr_complete"),
+                    dict(grammar=gtext_of(gi), algo="GLR", table="LALR_RN", flags=FLAGS,
+                         obligation="Spec.ValidatorsRN.%s / Properties.C03.nlr_exact" % which), found_input=False)
+    # runs of the machine vs the real forest
+    sel = []
+    for gi, d, ins in items:
+        for i, w, pr in ins:
+            # By nlr_exact the run set of a validated table IS the set of derivation trees the oracle enumerates, so
+            # this comparison adds no strength; it is kept on a small sample as a non-vacuity test of the machine
+            # (plain enumeration of runs is exponential where the GLR parser shares work).
+            if len(w) > 3 or len(d.prods) > 9:
+                continue
+            if pr["kind"] == "OK" and (pr["n"] > 6 or len(pr["trees"]) != pr["n"] or pr["none_trees"]):
+                continue
+            if pr["kind"] not in ("OK", "ERR"):
+                continue
+            sel.append((gi, d, i, w, pr))
+    random.Random(len(sel)).shuffle(sel)
+    sel = sel[:96]
+    nf = max(1, len(sel) // 6 + 1)
+    files = []
+    for fi in range(nf):
+        chunk = sel[fi::nf]
+        body = [NLR_HEADER]
+        defined = {}
+        for gi, d, i, w, pr in chunk:
+            if gi not in defined:
+                defined[gi] = len(defined)
+                body.append("Definition g%d := %s.\nDefinition T%d := %s." % (defined[gi], gl_grammar(d), defined[gi], gl_table(d)))
+            n = defined[gi]
+            kinds = LC.letters_to_kinds(w)
+            trees = pr["trees"] if pr["kind"] == "OK" else []
+            body.append("Eval vm_compute in c03_nlr_b g%d T%d %d %s %s %s." % (
+                n, n, 6 * len(w) + 8, gl_nats(kinds), gl_bool(pr["kind"] == "OK"), gl_list([gl_tree(t) for t in trees])))
+        files.append(("c03nlr_%d" % fi, "\n".join(body) + "\n", chunk))
+    n_runs = n_cut = 0
+    for (fname, body, chunk), (ok, out) in zip(files, coq_eval_many([(f[0], f[1]) for f in files], timeout=90)):
+        ans = parse_bools(out) if ok else []
+        if len(ans) != len(chunk):
+            n_cut += len(chunk)        # enumeration too large (time limit): not decided by this sample
+            continue
+        for (gi, d, i, w, pr), a in zip(chunk, ans):
+            if len(a) != 3 or not a[0]:
+                n_cut += 1
+                continue
+            n_runs += 1
+            if not (a[1] and a[2]):
+                fnd.add("forest-vs-table-runs", "the real forest differs from the set of accepting runs of the "
+                        "nondeterministic LR machine over the real table (trees modulo elision / acceptance)",
+                        dict(grammar=gtext_of(gi), algo="GLR", table="LALR_RN", flags=FLAGS, input=GR.render(w),
+                             real_solutions=pr.get("n", 0), same_trees=a[1], same_acceptance=a[2],
+                             obligation="correspondence Model.NLR.nruns vs rustemo::GlrParser"))
+    return dict(tables_validated=n_tab, tables_passing_sound_rn_and_complete_rn=n_tab_ok,
+                inputs_compared_with_table_runs=n_runs, run_enumerations_cut_by_fuel=n_cut)
+
+
 def run(rep, tier, seed):
     T = [time.time()]
     gs, rng = make_grammars(tier, seed)
@@ -598,6 +686,8 @@ def run(rep, tier, seed):
                                             first_tree=gl_tree(pr["trees"][0])))
                 else:
                     n_err += 1
+    tabcov = table_phase(rep, fnd, [(gi, d) for gi, d in dumps if not isinstance(scope.get(gi), dict) and scope.get(gi)[0]],
+                         items, lambda gi: gs[gi].text(inline=(gi % 4 == 0)))
     lexcov = lexical_family(rep, tier, seed, fnd, stats)
     n_inputs += lexcov["lexical_token_words_judged"]
     n_decided += lexcov["lexical_token_words_decided"]
@@ -623,7 +713,7 @@ def run(rep, tier, seed):
              "(shortest %d kept + sample), 2 longer sampled sentences, %d mutated non-sentences, the empty input; "
              "non-trivial = inputs the real GLR parser accepted and whose forest was compared tree by tree with the oracle"
              % (maxlen, nvalid // 2, ninvalid),
-        forests_too_large_to_enumerate=len(too_large), lexical_family=lexcov,
+        forests_too_large_to_enumerate=len(too_large), lexical_family=lexcov, table_side=tabcov,
         grammars_generated=len(gs), grammars_compiler_error=n_comp_err, grammars_in_scope=len(inscope),
         out_of_scope_cyclic=out_cyclic, out_of_scope_eps_ambiguous=out_eps, out_of_scope_not_wf=out_wf,
         shapes=shapes, inputs_accepted=n_ok, inputs_rejected=n_err, inputs_ambiguous=n_amb,
